@@ -20,6 +20,7 @@ CHECKS = {
  "C15": ("exploration", "Rounds of datagrams of boundary sizes (1..65507) in both directions through (a) the whole system on a lossless, ordered simulated UDP network (real Client::create_udp_proxy, real sessions over rustls, real Server and handle_udp_over_tcp) and (b) the real handle_udp_over_tcp behind a real server Session fed by a scripted peer that cuts the length-prefixed byte stream into PSH frames at seeded offsets, always inside the first prefix and sometimes one byte per frame; one-for-one, same-size, same-bytes, right-address oracle.", "7/C15", ""),
  "C16": ("exploration", "One seeded client byte stream per run (greeting with 0-255 methods, request with any version/command/reserved/address-type byte, IPv4/IPv6/name of length 0-255, boundary ports, optional truncation at any byte or trailing bytes) written to the real SOCKS5 front-end in seeded segments down to single bytes with delays; targets accept/refuse/black-hole; sibling and fresh connections check isolation; oracle = 60-line reference SOCKS5 server + the simulated network's connect log + reply timing.", "7/C16", ""),
  "C17": ("exploration", "One seeded well-formed proxy request per run (CONNECT / absolute-form / origin-form+Host, methods incl. lower-case and extension, names / IPv4 / bracketed IPv6 with and without ports, header sets with seeded order, Host spelling and position, header blocks padded to ~1 KiB / ~2 KiB / the 64 KiB limit, body bytes in the same segments as the header and later, early tunnel bytes for CONNECT) written to the real HTTP front-end with seeded segmentation; oracle = independent reference for authority, status, the rewritten request the origin must receive byte for byte, and relayed bytes both ways.", "7/C17", ""),
+ "C08": ("exploration", "(a) Receive side, strict: a scripted peer sends interleaved PSH chunks and FIN for 1-4 streams to a real client/server Session whose readers are blocked, slow or absent; every byte then EOF, EOF only for ids with FIN, exactly those ids released from both tables, writes on the finished stream still reach the wire. (b) End to end through the whole system (SOCKS5 / HTTP CONNECT tunnels): the application or the target closes / half-closes with up to 200000 bytes in flight; bytes-before-EOF, reverse direction and siblings are strict; EOF propagation and state/task release fail on the current tree (no FIN is ever emitted) and are recorded as known findings per closing side and mode.", "7/C08", "Known findings: see /verif/known_findings.json (C08 entries)."),
  "C09": ("exploration", "Real client or server Session with blocked readers, pending opens and concurrent writers against a scripted peer; exactly one termination cause per run (EOF / reset / unexpected-EOF / write error / flush error at a seeded byte offset inside or between frames, Alert, owner close at a seeded instant, heartbeat give-up) with shutdown ok/err/hang; oracle on virtual time: closed, transport shut, readers and opens released by t0+2s, no write/open hangs, later attempts fail.", "7/C09", ""),
  "C12": ("exploration", "Model-based: real Client + SessionPool + reaper + heartbeat against the real Server over histories of requests (single / bursts, streams held 20 ms .. 4 intervals), external session deaths and reaper ticks under pool settings interval {1,5,30}s x timeout {2,3,10} intervals x min idle {0..3}; the observed sessions handed out, closed and held in the idle map are compared after every tick with an executable model of the pool as implemented (M1), and the four property clauses are judged on the observations. Clause failures that M1 predicts exactly are the recorded known findings (missing stream life-cycle); any deviation from M1 is a violation.", "7/C12", "Known findings: see /verif/known_findings.json (C12 entries)."),
  "C13": ("exploration", "Same model-based harness as C12 without session deaths: strictly sequential, bursty and mixed request histories; TLS connections counted on the simulated network, open sessions observed after every tick; clause 1 (a request starting while a healthy stream-less session exists is not re-dialled) and clause 2 (open sessions <= peak concurrency + configured minimum) judged on the observations; failures predicted exactly by the pool model M1 are the recorded known findings, deviations from M1 are violations.", "7/C13", "Known findings: see /verif/known_findings.json (C13 entries)."),
